@@ -123,9 +123,12 @@ def showOpt (r : Option (List Tok)) : String :=
 
 /-- What the main loop of the VM delivers to the character / undefined-command handlers
 when it executes a token list: every non-brace token, in order; braces open and close
-groups; a `}` with no open group ends the run with "there is no group to end" (`true`). -/
+groups; a `}` with no open group ends the run with "there is no group to end" (`true`).
+`\l` (only used by the harness's expandable-token stream, where it is `\def`) followed by a
+name and a one-token group is a definition: nothing is delivered. -/
 def project : Nat → List Tok → List Tok × Bool
   | _, [] => ([], false)
+  | d, .cs 108 :: _ :: .bg :: _ :: .eg :: ts => project d ts   -- `\l` is `\def` in the expandable-token stream: `\l\x{;}` is executed silently
   | d, .bg :: ts => project (d + 1) ts
   | 0, .eg :: _ => ([], true)
   | d + 1, .eg :: ts => project d ts
